@@ -148,6 +148,19 @@ def build(case):
     return mk(expr)
 
 
+def _non_unit(conn):
+    from hdl21.slice import Slice
+    from hdl21.concat import Concat
+    if isinstance(conn, Slice):
+        return conn if conn.step != 1 else None
+    if isinstance(conn, Concat):
+        for p in conn.parts:
+            r = _non_unit(p)
+            if r is not None:
+                return r
+    return None
+
+
 def check_nested(case):
     from hdl21.elab.passes.slices import _resolve_sliceable
     from hdl21.elab.helpers.width import width
@@ -181,6 +194,12 @@ def check_nested(case):
     if expect == "invalid":
         return ("resolve.accepts-invalid", f"{case!r}: selects nothing / out of range but resolves to "
                                            f"{names(got)}", {"case": repr(case)})
+    bad = _non_unit(res)
+    if bad is not None:
+        # callee contract of the exporter (export_slice refuses any other step): the resolver's result is what is
+        # exported, so a strided / reversed slice left in it turns a valid design into an export error
+        return ("resolve.non-unit-step", f"{case!r}: resolved form still holds a slice with step {bad.step} "
+                                         f"(index {bad.index!r})", {"case": repr(case)})
     if wd != len(expect):
         return ("width", f"{case!r}: width() == {wd}, expression denotes {len(expect)} bits", {"case": repr(case)})
     if [(id(s), i) for s, i in got] != [(id(s), i) for s, i in expect]:
